@@ -23,12 +23,12 @@ import time
 
 VERIF = os.path.dirname(os.path.dirname(os.path.abspath(__file__)))
 REPO = os.environ.get("VERIF_REPO", "/repo")
-BUILD = os.path.join(VERIF, "build")
+BUILD = os.environ.get("VERIF_BUILD", os.path.join(VERIF, "build"))
 SPEC = os.path.join(VERIF, "spec")
 HARNESS = os.path.join(VERIF, "harness")
 SHIM = os.path.join(VERIF, "hostshim")
-EVIDENCE = os.path.join(VERIF, "evidence")
-REPLAYS = os.path.join(VERIF, "replays")
+EVIDENCE = os.environ.get("VERIF_EVIDENCE", os.path.join(VERIF, "evidence"))
+REPLAYS = os.environ.get("VERIF_REPLAYS", os.path.join(VERIF, "replays"))
 DATA = os.path.join(VERIF, "data")
 PY = "/venv/bin/python"
 NCPU = os.cpu_count() or 4
@@ -231,7 +231,7 @@ def run_tlc(module, cfg=None, env=None, workers=None, timeout=600, extra=(), sim
     e = dict(os.environ)
     if env:
         e.update({k: str(v) for k, v in env.items()})
-    jopts = list(java_opts)
+    jopts = ["-Xss64m"] + list(java_opts)   # deep (but finite) recursion in RECURSIVE operators
     if dfs:
         jopts.append("-Dtlc2.tool.queue.IStateQueue=StateDeque")
     if jopts:
